@@ -393,15 +393,20 @@ impl<'input> Parser<'input> {
         for res in &mut self.lexer {
             match res {
                 Err(err) => {
-                    if err.is_limit() {
-                        self.accept_errors = false;
-                    }
+                    let is_limit = err.is_limit();
                     // Queue the error data to be added to the CST later.
                     let data = err.data();
                     if !data.is_empty() {
                         self.pending.push(PendingToken::Error(data.to_owned()));
                     }
-                    self.errors.push(err);
+                    // Like any other error, lexer errors are discarded
+                    // once a limit has been reached.
+                    if self.accept_errors {
+                        self.errors.push(err);
+                    }
+                    if is_limit {
+                        self.accept_errors = false;
+                    }
                 }
                 Ok(token) => {
                     return Some(token);
